@@ -23,10 +23,52 @@ namespace Goderive.ErrChain
 structure Cfg where
   zeroFixed : Bool := false
   lhsFixed : Bool := false
+  errTypeFixed : Bool := false   -- a custom error type as the last RESULT of a stage gives a usable helper
+  errRecvFixed : Bool := false   -- `IsError` no longer accepts a type whose `Error` has a pointer receiver, used by value
+  typedNilFixed : Bool := false  -- a nil custom error handed to join counts as "no error"
   deriving DecidableEq, Repr, Inhabited
 
 def Cfg.current : Cfg := {}
-def Cfg.fixed : Cfg := { zeroFixed := true, lhsFixed := true }
+def Cfg.fixed : Cfg :=
+  { zeroFixed := true, lhsFixed := true, errTypeFixed := true, errRecvFixed := true, typedNilFixed := true }
+
+/-! ### `derive.IsError`: which types stand where an `error` is expected
+
+The generator decides with a hand-written scan: the type must be NAMED (`*types.Named`) and either be
+called `error` or declare a method `Error` without parameters and with the single result `string`
+(a basic type). `types.Named.NumMethods` lists methods of both receiver kinds. -/
+
+inductive ErrTy where
+  | builtin            -- the predeclared `error`
+  | namedNilable       -- `type E []string; func (E) Error() string`
+  | namedStruct        -- `type E struct{…}; func (E) Error() string`: no nil value
+  | namedPtrRecv       -- `type E …; func (*E) Error() string`, used BY VALUE: does not implement error
+  | pointerToNamed     -- `*E` with `func (*E) Error() string`: implements error, is not a named type
+  | namedIface         -- `type E interface{ error }`: implements error, declares no method itself
+  | nearMiss           -- `Error(x int) string`, `Error() (string, int)`, `Error() int`, `Error() NamedString`
+  deriving DecidableEq, Repr, Inhabited
+
+/-- `derive.IsError` -/
+def isError (cfg : Cfg) : ErrTy → Bool
+  | .builtin | .namedNilable | .namedStruct => true
+  | .namedPtrRecv => !cfg.errRecvFixed
+  | _ => false
+
+/-- the Go truth: a value of the type is assignable to `error` -/
+def implementsError : ErrTy → Bool
+  | .builtin | .namedNilable | .namedStruct | .pointerToNamed | .namedIface => true
+  | _ => false
+
+/-- the emitted helper can be called with a stage function whose last result has this type: the
+parameter type is printed with the predeclared `error`, and function types are invariant -/
+def resultPosCompiles (cfg : Cfg) : ErrTy → Bool
+  | .builtin => true
+  | .namedNilable | .namedStruct => cfg.errTypeFixed
+  | _ => false
+
+/-- a VALUE of the type can be handed to a parameter of type `error` (join's second argument, toerror's first) -/
+def argPosCompiles : ErrTy → Bool
+  | t => implementsError t
 
 /-! ### `derive.Zero` -/
 
